@@ -48,6 +48,7 @@ package graphsync
 //@       (has(self.m, k) ==> self.m[k] == old(self.m[k])) -- every request id of the channel is forgotten, every other mapping is kept
 
 //@ func (*graphsync.requestIDToChannelIDMap).forEach {C16,C20}
+//@   invokes f -- called for every entry while lk is read-held: what it may acquire is each caller's obligation
 //@   acquires {C20} requestIDToChannelIDMap.lk
 //@   requires f != nil
 //@   loop 0 invariant [read-only] forall k graphsync.RequestID :: has(m.m, k) == old(has(m.m, k)) && (has(m.m, k) ==> m.m[k] == old(m.m[k]))
@@ -269,9 +270,10 @@ package graphsync
 //@ func (*graphsync.Transport).MaxLinks {C20}
 //@   acquires {C20} graphsync.Transport.dtChannelsLk, graphsync.dtChannel.optionsLk
 //@ func (*graphsync.Transport).Shutdown {C20}
-//@   acquires {C20} graphsync.Transport.dtChannelsLk
+//@   acquires {C20} graphsync.Transport.dtChannelsLk, graphsync.dtChannel.lk
 //@   loop 0 invariant [unregister] $i >= 0
-//@   loop 1 invariant [channels] true
+//@   loop 1 invariant [snapshot] true
+//@   loop 2 invariant [channels] $i >= 0
 //@ func (*graphsync.Transport).ChannelsForPeer {C20}
 //@   acquires {C20} graphsync.Transport.dtChannelsLk, graphsync.requestIDToChannelIDMap.lk
 //@ func (*graphsync.Transport).ChannelsForPeer$1 {C20}
